@@ -116,6 +116,7 @@ def prepare():
     t0 = time.time()
     b = Build()
     os.makedirs(os.path.join(VERIF, ".build"), exist_ok=True)
+    os.makedirs(EXTRACT, exist_ok=True)
     with open(os.path.join(VERIF, ".build", "lock"), "w") as lock:
         fcntl.flock(lock, fcntl.LOCK_EX)
         text, status = gen.generate(REPO)
